@@ -17,7 +17,8 @@ func init() {
 		Clauses: "xsrftoken: clean is a chain of strings.ReplaceAll calls from the parameter to the result whose literal pairs form an injective, separator-free escape " +
 			"(escape byte doubled first, then separator -> escape+other byte; also confirmed by evaluating the literal pairs on every string over {escape, separator, second byte, 'a'} up to length 7); " +
 			"the MAC input format is %s<sep>%s<sep>%d with that same separator and arguments clean(userID), clean(actionID), milliTime; the HMAC key is the key parameter; " +
-			"milliTime = (now.UnixNano()+1e6-1)/1e6 and the same value is appended to the token; validTokenAtTime parses the suffix after the last separator in base 10/64 bit, rebuilds the issue time as Unix(0, millis*1e6), " +
+			"milliTime = (now.UnixNano()+1e6-1)/1e6 and the token is <value derived from the MAC sum> + that separator + the decimal rendering of the same value (Sprintf %s<sep>%d or concatenation with strconv.FormatInt base 10); " +
+			"validTokenAtTime computes the last index of that separator in the token parameter (strings.LastIndex / LastIndexByte), rejects a negative index, parses the suffix after it in base 10/64 bit, rebuilds the issue time as Unix(0, millis*1e6), " +
 			"rejects now.Sub(issue) >= timeout and issue.After(now.Add(1 minute)) before comparing, regenerates the token from the same key, userID, actionID and the parsed issue time, " +
 			"and returns ConstantTimeCompare(token, expected) == 1; Valid/ValidFor/Generate forward their arguments in order (Valid with Timeout); call graph of clean/generateTokenAtTime/validTokenAtTime.",
 		NotCovered: "cryptographic strength of HMAC-SHA1 and base64; int64 overflow of millis*1e6 and of UnixNano for extreme times; monotonic-clock effects in time.Sub/After; " +
@@ -151,29 +152,67 @@ func c57(c *Ctx) {
 		c.Has(gen, Calls(".Sum").Where("on the hmac.New value", func(in ssa.Instruction) bool {
 			return IsCallTo("crypto/hmac.New")(StripConv(in.(*ssa.Call).Call.Value))
 		}))
-		sp := Calls("fmt.Sprintf").F(c.P, fn)
+		// token layout over the returned value: <encoded MAC sum> <sep> <decimal milliTime>, however it is assembled
+		// (Sprintf("%s<sep>%d", a, b) or a + "<sep>" + strconv.FormatInt(b, 10)).
 		okTok := false
-		tdetail := ""
-		if len(sp) == 1 {
-			call := sp[0].(*ssa.Call)
-			f, _ := ConstStr(BaselineArgs(&call.Call)[0])
-			if es, ok := CallVarArgs(call); ok && len(es) == 2 {
-				tdetail = f + " " + Term(es[0]) + " " + Term(es[1])
-				okTok = sep != "" && f == "%s"+sep+"%d" && es[1] == milli && DependsOn(es[0], IsCallTo(".Sum"))
+		tdetail := "no single return"
+		if rets := Returns().F(c.P, fn); len(rets) == 1 {
+			res := rets[0].(*ssa.Return).Results[0]
+			tdetail = Term(res)
+			if head, s, dec, how, ok := c57TokenLayout(res); ok {
+				tdetail = fmt.Sprintf("%s: %s %q decimal(%s)", how, Term(head), s, Term(dec))
+				okTok = sep != "" && s == sep && milli != nil && StripConv(dec) == StripConv(milli) && DependsOn(head, IsCallTo(".Sum"))
 			}
-			rets := Returns().F(c.P, fn)
-			okTok = okTok && len(rets) == 1 && rets[0].(*ssa.Return).Results[0] == ssa.Value(call)
 		}
-		c.Check(okTok, "codec-layout", gen+": token = Sprintf(%s<sep>%d, encoded MAC sum, the same milliTime)", fn.Pos(), tdetail, "token format/arguments: "+tdetail)
+		c.Check(okTok, "codec-layout", gen+": token = encoded MAC sum + <sep> + decimal of the same milliTime", fn.Pos(), tdetail, "token format/arguments: "+tdetail)
 	}
 	c.Callers(gen, pk+"Generate", val)
 
 	// ---- validTokenAtTime ----
-	q := fmt.Sprintf("%q", sep)
-	suffix := "$0[(LastIndex($0," + q + ")+1):]"
+	// the separator index is whatever the code computes as "last index of clean's separator in the token parameter"
+	// (strings.LastIndex(token, sep) or strings.LastIndexByte(token, sep[0])); the specs below are built from its rendered term.
+	sepIdx := "LastIndex($0," + fmt.Sprintf("%q", sep) + ")"
+	if fn := c.MustFn(val); fn != nil {
+		var cands []string
+		for _, in := range Calls("strings.LastIndex", "strings.LastIndexByte").F(c.P, fn) {
+			call := in.(*ssa.Call)
+			args := BaselineArgs(&call.Call)
+			if len(args) != 2 || StripConv(args[0]) != ssa.Value(fn.Params[0]) {
+				continue
+			}
+			isSep := false
+			if IsCallTo("strings.LastIndex")(call) {
+				s, ok := ConstStr(args[1])
+				isSep = ok && sep != "" && s == sep
+			} else {
+				b, ok := ConstInt64(args[1])
+				isSep = ok && len(sep) == 1 && b == int64(sep[0])
+			}
+			if isSep {
+				cands = append(cands, Term(call))
+			}
+		}
+		// if the index is computed more than once, take the one the parsed suffix is cut at
+		pick := ""
+		for _, t := range cands {
+			if pick == "" {
+				pick = t
+			}
+			if len(Calls("strconv.ParseInt").ArgIs(0, "$0[("+t+"+1):]").F(c.P, fn)) > 0 {
+				pick = t
+				break
+			}
+		}
+		c.Check(pick != "", "derives-from", val+": the last index of clean's separator in the token parameter is computed", fn.Pos(), pick,
+			"no strings.LastIndex/LastIndexByte call on the token parameter with the separator "+fmt.Sprintf("%q", sep))
+		if pick != "" {
+			sepIdx = pick
+		}
+	}
+	suffix := "$0[(" + sepIdx + "+1):]"
 	issue := "Unix(0,(ParseInt(" + suffix + ",10,64)#0*1000000))"
 	cmp := Calls("crypto/subtle.ConstantTimeCompare")
-	c.Reject(val, cmp, "LastIndex($0,"+q+") < 0")
+	c.Reject(val, cmp, sepIdx+" < 0")
 	c.Reject(val, cmp, "ParseInt("+suffix+",10,64)#1 != nil")
 	c.Reject(val, cmp, "Sub($4,"+issue+") >= $5")
 	c.Reject(val, cmp, "After("+issue+",Add($4,60000000000))")
@@ -225,6 +264,48 @@ func c57(c *Ctx) {
 		}))
 		c.Count(pk+w, Returns(), 1, 1)
 	}
+}
+
+// c57TokenLayout decomposes a string value of the shape <head><sep><decimal of dec>:
+// either fmt.Sprintf("%s<sep>%d", head, dec) or the concatenation head + "<sep>" + strconv.FormatInt(dec, 10).
+func c57TokenLayout(v ssa.Value) (head ssa.Value, sep string, dec ssa.Value, how string, ok bool) {
+	v = StripConv(v)
+	if call, isCall := v.(*ssa.Call); isCall && IsCallTo("fmt.Sprintf")(call) {
+		f, isC := ConstStr(BaselineArgs(&call.Call)[0])
+		es, isVar := CallVarArgs(call)
+		if !isC || !isVar || len(es) != 2 || !strings.HasPrefix(f, "%s") || !strings.HasSuffix(f, "%d") || len(f) < 4 {
+			return nil, "", nil, "", false
+		}
+		s := f[2 : len(f)-2]
+		if strings.Contains(s, "%") {
+			return nil, "", nil, "", false
+		}
+		return es[0], s, es[1], "Sprintf", true
+	}
+	var leaves []ssa.Value
+	var flat func(x ssa.Value, depth int)
+	flat = func(x ssa.Value, depth int) {
+		if bo, isBin := StripConv(x).(*ssa.BinOp); isBin && bo.Op == token.ADD && depth < 16 {
+			flat(bo.X, depth+1)
+			flat(bo.Y, depth+1)
+			return
+		}
+		leaves = append(leaves, StripConv(x))
+	}
+	flat(v, 0)
+	if len(leaves) != 3 {
+		return nil, "", nil, "", false
+	}
+	s, isC := ConstStr(leaves[1])
+	num, isCall := leaves[2].(*ssa.Call)
+	if _, headConst := ConstStr(leaves[0]); headConst || !isC || !isCall || !IsCallTo("strconv.FormatInt")(num) {
+		return nil, "", nil, "", false
+	}
+	nargs := BaselineArgs(&num.Call)
+	if base, isK := ConstInt64(nargs[1]); !isK || base != 10 {
+		return nil, "", nil, "", false
+	}
+	return leaves[0], s, nargs[0], "concatenation", true
 }
 
 func termOrNil(v ssa.Value) string {
